@@ -22,6 +22,9 @@ from .rseval import Struct, Enum, NONE, Some, Uninterp
 
 FILES = ["src/naming/core.rs", "src/naming/service.rs", "src/naming/filter.rs", "src/naming/model.rs"]
 THRESHOLDS = [0.0, 0.5, 0.8]
+# get_service_info: gRPC service query / subscription / push; get_instance_list: HTTP /v1/ns/instance/list (QueryList, QueryListString);
+# get_instance_page: console instance page
+ENTRIES = ["get_service_info", "get_instance_list", "get_instance_page"]
 
 
 def load():
@@ -41,16 +44,20 @@ def pick(it, var, options):
 def run(tier, seed):
     t0 = time.time()
     ob = {"engine": "smt", "harness": "s12_3_query_protection_threshold", "encodes_files": FILES, "queries": 0, "solver_s": 0.0, "distinct": 0,
-          "encodes": ["NamingActor::{get_service_info,get_instances_and_metadata}", "Service::{get_instance_list,get_all_instances,get_metadata}", "InstanceFilterUtils::default_service_filter"],
-          "bound": "one service, 3 addresses each absent / registered with symbolic enabled and healthy flags; protection threshold in %s; healthy-only or not" % THRESHOLDS}
+          "encodes": ["NamingActor::{get_service_info,get_instances_and_metadata,get_instance_list,get_instance_page}", "Service::{get_instance_list,get_all_instances,get_metadata}", "InstanceFilterUtils::{default_service_filter,default_instance_filter}"],
+          "bound": "one service, 3 addresses each absent / registered with symbolic enabled and healthy flags; protection threshold in %s; healthy-only or not; three entry points (service info, instance list, instance page)" % THRESHOLDS}
     try:
         prog = load()
         it = make_interp(prog)
         it.fn_models["NamingUtils::split_filters"] = lambda interp, args: []
+        # get_instance_page sorts by get_short_key() (ip, port): modelled on the concrete addresses of the scenario
+        it.models[(None, "sort_by")] = lambda interp, recv, args: recv.sort(key=lambda x: (x["ip"], x["port"])) or ()
         present = [z3.Bool("addr%d_registered" % i) for i in range(3)]
         enabled = [z3.Bool("addr%d_enabled" % i) for i in range(3)]
         healthy = [z3.Bool("addr%d_healthy" % i) for i in range(3)]
         thv, only_h = z3.BitVec("threshold_choice", 8), z3.Bool("healthy_only")
+        entry = z3.BitVec("entry_point", 8)
+        entry_seen = {}
         covers = {"protection threshold reached": 0, "healthy-only without protection": 0}
 
         def thunk():
@@ -72,22 +79,35 @@ def run(tier, seed):
                 state[i + 1] = (e, h)
             svc["instance_size"] = len(state)
             oh = it.branch(only_h)
-            info_ = it.call_method("NamingActor", "get_service_info", actor, [SKEY, "", oh])
-            hosts = info_["hosts"]
-            got = sorted(x["port"] for x in hosts.payload[0]) if isinstance(hosts, Enum) and hosts.variant == "Some" else None
-            reach = info_["reach_protection_threshold"]
+            ep = pick(it, entry, ENTRIES)
+            reach = None
+            if ep == "get_service_info":
+                info_ = it.call_method("NamingActor", "get_service_info", actor, [SKEY, "", oh])
+                hosts = info_["hosts"]
+                got = sorted(x["port"] for x in hosts.payload[0]) if isinstance(hosts, Enum) and hosts.variant == "Some" else None
+                reach = info_["reach_protection_threshold"]
+            elif ep == "get_instance_list":
+                got = sorted(x["port"] for x in it.call_method("NamingActor", "get_instance_list", actor, [SKEY, "", oh]))
+            else:
+                total, page = it.call_method("NamingActor", "get_instance_page", actor, [SKEY, "", oh, 10, 1])
+                got = [x["port"] for x in page]
+                if got != sorted(got):
+                    return ("violation", "%s: the instance page is not in address order: %s" % (ep, got), "query-filter")
+                if total != len(got):
+                    return ("violation", "%s: the instance page reports total %s and lists %d instances" % (ep, total, len(got)), "query-filter")
             E = sorted(p for p, (e, h) in state.items() if e)
             H = sorted(p for p, (e, h) in state.items() if e and h)
             protected = bool(E) and (len(H) / len(E)) <= th
             want = E if protected else (H if oh else E)
-            what = "threshold %s, healthy-only=%s, registered (enabled, healthy): %s" % (th, oh, state)
+            what = "%s, threshold %s, healthy-only=%s, registered (enabled, healthy): %s" % (ep, th, oh, state)
+            entry_seen[ep] = entry_seen.get(ep, 0) + 1
             if got is None:
                 return ("violation", "the query returns no host list (%s)" % what, "query-no-hosts")
             if got != want:
                 extra = [p for p in got if p not in state or not state[p][0]]
                 tag = "query-returns-disabled-or-foreign" if extra else ("protection-threshold-ignored" if protected else "query-filter")
                 return ("violation", "the query returns addresses %s, expected %s (%s)" % (got, want, what), tag)
-            if bool(reach) != protected and isinstance(reach, bool):
+            if reach is not None and bool(reach) != protected and isinstance(reach, bool):
                 return ("violation", "the query %s that the protection threshold is reached (%s)" % ("does not report" if protected else "reports", what), "protection-flag")
             if protected:
                 covers["protection threshold reached"] += 1
@@ -106,7 +126,7 @@ def run(tier, seed):
         ob["queries"] = it.queries
         ob["solver_s"] = round(time.time() - t0, 1)
         ob["sample"] = {"paths_explored": len(paths), "covers": covers, "opaque_symbols": sorted(it.opaque_seen)[:12]}
-        missing = [c for c, n in covers.items() if n == 0]
+        missing = [c for c, n in covers.items() if n == 0] + ["entry point %s" % e for e in ENTRIES if not entry_seen.get(e) and not viol]
         if viol:
             ob.update({"verdict": "violation", "message": viol["message"], "tags": viol["tags"], "counterexample": {"state": viol["message"]}})
         elif missing:
